@@ -1,3 +1,4 @@
+import FrappyModel.Small.Scan
 /-
 Model of the convenience parameter kinds of `frappy/extparams.py`, `frappy/params.py: Limit` and
 `frappy/modulebase.py: checkLimits` (with the read/write wrappers of `HasAccessibles.__init_subclass__`,
@@ -212,10 +213,13 @@ def step (cfg : Cfg) (s : St) : Op → St
   | .driverAssignStruct v => if wf cfg v then fine (assignStruct cfg v s) else failed s   -- not stored: `readerror`
   | .driverAssignMember m v => if !cfg.members.contains m then failed s else fine (announceMember cfg m v s)
 
+def step1 (cfg : Cfg) (s : St) (op : Op) : St := step cfg { s with evs := [] } op
+
 /-- states after each operation (the quiescent points) -/
-def run (cfg : Cfg) (s : St) : List Op → List St
-  | [] => []
-  | op :: ops => let s' := step cfg { s with evs := [] } op; s' :: run cfg s' ops
+def run (cfg : Cfg) (s : St) (ops : List Op) : List St := Frappy.Scan.scan (step1 cfg) s ops
+
+/-- state after a whole history -/
+def exec (cfg : Cfg) (s : St) (ops : List Op) : St := ops.foldl (step1 cfg) s
 
 def init (cfg : Cfg) : St :=
   { struct := cfg.members.map (fun m => (m, 0)), mem := cfg.members.map (fun m => (m, 0)) }
@@ -315,9 +319,9 @@ def fstep (cfg : FCfg) (s : FSt) : FOp → FSt
     if x < cfg.lo || cfg.hi < x then { s with ok := false }
     else { femit { s with value := x } (.value x) with ok := true }
 
-def frun (cfg : FCfg) (s : FSt) : List FOp → List FSt
-  | [] => []
-  | op :: ops => let s' := fstep cfg { s with evs := [] } op; s' :: frun cfg s' ops
+def fstep1 (cfg : FCfg) (s : FSt) (op : FOp) : FSt := fstep cfg { s with evs := [] } op
+def frun (cfg : FCfg) (s : FSt) (ops : List FOp) : List FSt := Frappy.Scan.scan (fstep1 cfg) s ops
+def fexec (cfg : FCfg) (s : FSt) (ops : List FOp) : FSt := ops.foldl (fstep1 cfg) s
 
 /-! ## Limit parameters (params.py:555-580, modulebase.py:156-169, 843-869, datatypes.py:1252-1265; repaired code)
 
@@ -401,9 +405,9 @@ def lstep (cfg : LCfg) (s : LSt) : LOp → LSt
   | .driverAssignLimits a b =>
     if cfg.hasLimits && validLimits cfg a b then lemit { s with limits := (a, b) } (.limits a b) else lfail s
 
-def lrun (cfg : LCfg) (s : LSt) : List LOp → List LSt
-  | [] => []
-  | op :: ops => let s' := lstep cfg { s with evs := [] } op; s' :: lrun cfg s' ops
+def lstep1 (cfg : LCfg) (s : LSt) (op : LOp) : LSt := lstep cfg { s with evs := [] } op
+def lrun (cfg : LCfg) (s : LSt) (ops : List LOp) : List LSt := Frappy.Scan.scan (lstep1 cfg) s ops
+def lexec (cfg : LCfg) (s : LSt) (ops : List LOp) : LSt := ops.foldl (lstep1 cfg) s
 
 /-- defaults of the limit parameters: the range of the datatype (`Limit.set_datatype`) -/
 def linit (cfg : LCfg) (v : Val) : LSt :=
